@@ -56,7 +56,7 @@ class ClientAuthenticator:
             args = b''
         else:
             cmd, args = line.split(b' ', 1)
-        m = getattr(self, '_auth_' + cmd.decode(), None)
+        m = getattr(self, '_auth_' + cmd.decode('ascii', 'replace'), None)
         if m:
             m(args)
         else:
